@@ -32,4 +32,18 @@ CLAIMED = {
                 "different algorithm (e.g. np.searchsorted) is reported as ANALYSIS-ERROR (idiom not recognised), never as a violation.",
         "technique": "typestate (flush-before-read) dominance check + path enumeration over the filler loop with def-use role inference",
     },
+    "C02": {
+        "text": "Cache coherence of the container layer decided for all 8 container / parametric-model classes over every function visible on them: "
+                "inputs of the cached total error are derived from the transitive read set of _calculate_total_error and of the error-reference callable; "
+                "every direct write site of an input must reach `self._total_error = None` on all normal paths (Ctot); writers of the value store must "
+                "reset the source references of the written axis (Csrc); raw reads of lazily recomputed model values must be dominated by the stale check, "
+                "directly or in all callers (Cpm); the total is summed after the lazy values were refreshed (Cfirst); accumulation loops skip disabled "
+                "sources (D7); CovMat writers clear each derived cache (Ccov); lazy getters test the field they return (Clazy); the reference setter "
+                "clears the opposite representation (Cref). Each obligation is a necessary condition of 'total = sum of enabled sources at the current "
+                "reference after any history'.",
+        "note": "Numerical clauses (symmetry/PSD, floating-point exactness of disable->enable, the covariance formula itself) are not decided here. "
+                "Direct mutation of error objects obtained through get_error() is outside the statement (documented as requiring a manual cache clear). "
+                "Reasoned exemptions are listed in kv/rules/c02.py (EXEMPT_*).",
+        "technique": "interprocedural read/write effect summaries + CFG must-pass-through (writer -> invalidator), dominance (reader <- stale check)",
+    },
 }
